@@ -49,8 +49,8 @@ void h_extrude_guard(void) {
   ghost_invalid = 0; ghost_fell = 0;
   HARNESS_END;
   (void)M_Extrude(&cs, h, div, twist, st);
-  _Bool valid = cs._size > 0 && FINITE(h) && h > 0 && FINITE(twist) && FINITE(st.x) && FINITE(st.y);
-  __CPROVER_assert(valid || ghost_invalid == 1, "Extrude of an empty cross-section, with non-positive height, or with any NaN / infinite height, twist or top scale returns Invalid()");
+  _Bool valid = cs._size > 0 && FINITE(h) && h > 0 && div >= 0 && FINITE(twist) && FINITE(st.x) && FINITE(st.y);
+  __CPROVER_assert(valid || ghost_invalid == 1, "Extrude of an empty cross-section, with non-positive height, a negative number of divisions, or with any NaN / infinite height, twist or top scale returns Invalid()");
   __CPROVER_assert(!valid || ghost_fell, "Extrude with valid arguments proceeds");
 }
 /* Revolve: the angle must be positive (angles above 360 are clamped to a full turn); NaN, -inf, 0 and negative angles
